@@ -43,6 +43,75 @@ def above_one_cases(rng):
                     'flags': {'skip_brute': True, 'all_lower': False, 'folder': 'Grammar'}, 'cli': True})
     return out
 
+def tied_tail_case(rng):
+    """51 000 base structures, every variable with two probability groups: 11 000 structures with pairwise different probabilities, then a tail of 40 000 with
+    exactly the same probability (structures seen once in a large list) - more than 50 000 pre-terminals are queued at once and most of them tie."""
+    import itertools
+    labels = ['A1', 'A2', 'A3', 'D1', 'D2', 'D3', 'O1', 'O2', 'K4', 'Y1', 'X1', 'D4', 'A4', 'O3', 'A5', 'D5']
+    tuples = rng.sample(list(itertools.product(labels, repeat=4)), 51000)
+    head = 11000
+    w = [3.0 + (head - i) / head * 5.0 for i in range(head)] + [1.0] * (len(tuples) - head)
+    tot = sum(w)
+    base = [[''.join(t), x / tot] for t, x in zip(tuples, w)]
+    vals = {'A': lambda k: ['abcde'[:k], 'zyxwv'[:k]], 'D': lambda k: ['12345'[:k], '98765'[:k]], 'O': lambda k: ['!@#'[:k], '...'[:k]],
+            'K': lambda k: ['1qaz', 'zaq1'], 'Y': lambda k: ['1999', '2012'], 'X': lambda k: ['#1', '<3']}
+    terms = {}
+    for lab in labels:
+        a, b = vals[lab[0]](int(lab[1:]))
+        terms[lab] = [[a, 0.75], [b, 0.25]]
+        if lab[0] == 'A':
+            terms['C' + lab[1:]] = [['L' * int(lab[1:]), 0.75], ['U' + 'L' * (int(lab[1:]) - 1), 0.25]]
+    return {'spec': {'encoding': 'utf-8', 'uuid': 'tiedtail-%08x' % rng.getrandbits(32), 'base': base, 'prince': [], 'terms': terms, 'omen': None, 'pool': 'tiedtail'},
+            'flags': {'skip_brute': False, 'all_lower': False, 'folder': 'Grammar'}, 'tied_tail': True}
+
+def check_tied_tail(run, case, npops=70000):
+    """A run that cannot be exhausted here is judged on its beginning: among the first npops pre-terminals, every pre-terminal of the language that is strictly
+    more probable than the last one popped has been emitted, once."""
+    name, path = gstream.materialise(case['spec'], 'c02tt')
+    try:
+        flags = gstream.flags_of(case)
+        disk = oracles.Disk(path)
+        lang = oracles.Language(disk, flags['skip_brute'], flags['skip_case'], flags['folder'])
+        repo.scratch()
+        from lib_guesser.priority_queue import PcfgQueue
+        from .. import monitors
+        pcfg = monitors.load_pcfg(path, 'x')
+        q = PcfgQueue(pcfg)
+        pops = []
+        for k in range(npops):
+            it = q.next()
+            if it is None:
+                break
+            pops.append((monitors.pt_key(it['pt']), it['prob']))
+        if len(pops) < npops // 2:
+            run.inconc('tied-tail run: too few pops recorded'); return
+        run.ev('POP', len(pops))
+        last = pops[-1][1]
+        emitted = Counter((tuple(k[0]), tuple(k[1])) for k, pr in pops if pr > last)
+        expected = Counter()
+        # depth-first over the index vectors of each base structure, left to right as the tool multiplies; factors are <= 1, so a branch at or below `last` is dead
+        for bi, labs, bp, s_ in lang.base:
+            if not bp > last:
+                continue
+            groups = [[g[0] for g in lang.groups[l]] for l in labs]
+            stack = [((), bp)]
+            while stack:
+                idx, pr = stack.pop()
+                if len(idx) == len(labs):
+                    expected[(tuple(labs), idx)] += 1
+                    continue
+                for gi, f in enumerate(groups[len(idx)]):
+                    pr2 = pr * f
+                    if pr2 > last:
+                        stack.append((idx + (gi,), pr2))
+        if emitted != expected:
+            lost = sum((expected - emitted).values()); rep = sum((emitted - expected).values())
+            run.violation(f'among the first {len(pops)} pre-terminals of a ruleset with 51 000 base structures (40 000 of them tied): {lost} pre-terminal(s) more probable than the last one popped '
+                          f'were never emitted, {rep} repeated/foreign', case, observed={'last_prob': last, 'examples_lost': [list(k[1]) for k in list((expected - emitted))[:3]]}); return
+        run.case(h(['tied-tail', case['spec']['uuid']]))
+    finally:
+        repo.drop_rules(name)
+
 def gen_case(rng):
     if rng.random() < 0.2:
         from .. import trained
@@ -176,6 +245,9 @@ def run(run, rng):
         for zc in trained.ZERO_KEYSPACE_CASES:
             run.ev('zero_keyspace_trainings')
             run.guard({'train': dict(zc), 'spec': {'base': [], 'prince': [], 'pool': 'trained'}, 'flags': {'skip_brute': False, 'all_lower': False, 'folder': 'Grammar'}}, check_case, seconds=120)
+    if run.shard[0] == 2 % run.shard[1]:
+        run.ev('tied_tail_cases')
+        run.guard(tied_tail_case(rng), check_tied_tail, seconds=600)
     if run.shard[0] == 1 % run.shard[1]:
         for case in above_one_cases(rng):
             run.ev('rescaled_probability_above_one_cases')
@@ -185,4 +257,7 @@ def run(run, rng):
         run.guard(case, check_case, seconds=60)
 
 def replay(run, case):
-    check_case(run, case['case'])
+    if case['case'].get('tied_tail'):
+        check_tied_tail(run, case['case'])
+    else:
+        check_case(run, case['case'])
